@@ -13,6 +13,12 @@ func (core *JApiCore) scanProject() (je *jerr.JApiError) {
 	defer func() {
 		// We might get an error during scanning included file, and we should return
 		// correct error in that case.
+		if je != nil && je.File() != core.scanner.File() {
+			// The error of a directive written in one of the including files (it
+			// can be found while an included file is already being scanned): the
+			// directive has added the include trace of its own place.
+			return
+		}
 		core.scannersStack.AddIncludeTraceToError(je)
 	}()
 
